@@ -3,6 +3,7 @@
 One *job* = one (mutator, listener configuration): the real method is executed symbolically once,
 then one solver query per invariant clause group / frame group / event clause is discharged.
 """
+import os
 import time
 import z3
 import spydrnet as sdn
@@ -290,7 +291,47 @@ def run_mutator(u, seqlen, cls, method, doms, kwdoms=None, listeners=None, prep=
                 ab=ab, self_ref=self_ref, args=args, kwargs=kwargs, ret=ret, fn=fn)
 
 
+# z3 core used for the queries of this process: "default", or "euf" = the new SAT/EUF core of z3 >= 4.12
+# (tactic.default_tactic=smt sat.euf=true), which decides the large ite-heavy heap encodings of whole-function
+# runs (uniquify driver) in seconds where the default core needs minutes or gives up.  Every `sat` answer is replayed
+# on the real code before it is reported; the thorough tier cross-checks `unsat` answers with the default core when
+# that core answers within its budget (a disagreement is reported as a harness error).
+SOLVER_CORE = os.environ.get("VF_Z3_CORE", "default")
+CROSS_CHECK = os.environ.get("VF_Z3_CROSS", "") == "1"
+_core_set = [None]
+
+
+def _set_core(core):
+    if _core_set[0] == core:
+        return
+    if core == "euf":
+        z3.set_param("tactic.default_tactic", "smt")
+        z3.set_param("sat.euf", True)
+    else:
+        z3.set_param("tactic.default_tactic", "")
+        z3.set_param("sat.euf", False)
+    _core_set[0] = core
+
+
 def check(solver_assumptions, goal, timeout_ms=120000):
+    _set_core(SOLVER_CORE)
+    r = _check(solver_assumptions, goal, timeout_ms)
+    if r[0] == "unknown" and SOLVER_CORE == "default" and os.environ.get("VF_Z3_FALLBACK", "1") == "1":
+        # the default core gave up within its budget: ask the SAT/EUF core before answering "inconclusive"
+        _set_core("euf")
+        r2 = _check(solver_assumptions, goal, timeout_ms)
+        _set_core(SOLVER_CORE)
+        return (r2[0], r[1] + r2[1], r2[2])
+    if SOLVER_CORE == "euf" and CROSS_CHECK and r[0] == "unsat":
+        _set_core("default")
+        r2 = _check(solver_assumptions, goal, min(timeout_ms, 120000))
+        _set_core(SOLVER_CORE)
+        if r2[0] == "sat":
+            raise RuntimeError("z3 cores disagree: euf core says unsat, default core says sat")
+    return r
+
+
+def _check(solver_assumptions, goal, timeout_ms=120000):
     s = z3.Solver()
     s.set("timeout", timeout_ms)
     for a in solver_assumptions:
